@@ -1,7 +1,7 @@
 """C13 - WKD-IBE signatures (partial claim: signer/verifier agreement of structure)."""
 from .. import schemes
 
-EXPL = ('Partial claim. Whether verification accepts exactly the signed message and attribute list is the value of a pairing-'
+EXPL = ('(R-SCHEME) every path segment (entry -> loop head, one loop iteration, loop exit -> return) of the scheme routines is interpreted in the discrete-log domain - group elements are formal Z_r-linear combinations of base symbols with polynomial coefficients, pairings expand bilinearly, cursors and indices are symbolic - and its effect table is compared with the table the construction prescribes for the segment\'s category (attribute present / hidden / slot free in the parent / flags); with the exit conditions this is an inductive argument valid for every number of slots and every attribute list: which generator, which exponent, which randomness reaches which component is decided for all values at once. Partial claim. Whether verification accepts exactly the signed message and attribute list is the value of a pairing-'
         'product equation and is NOT decided. Decided are structural necessary conditions: (R-PAIR) signer and verifier bind '
         'the message through the same term hsig^message * prodexp, the signer starts from sk.bsig^message, and the verifier '
         'returns equal(e(a0, g) * e(-(bound term), a1), params.pairing) - a product of exactly two pairings with exactly one '
